@@ -42,11 +42,12 @@ class PyKdebugParser:
         self.dyld_addresses = []
         self.dyld_uuids = []
 
-    def kevents(self, kdebug: io.IOBase, extra_classes=()):
+    def kevents(self, kdebug: io.IOBase, extra_classes=(), all_threads_classes=()):
         events_generator = KdBufParser(self.threads_pids, self.pids_names).parse(kdebug)
         events_generator = filter(lambda e: not isinstance(e, OsLogEvent), events_generator)
         if self.filter_tid is not None:
-            events_generator = filter(lambda e: e.tid == self.filter_tid, events_generator)
+            events_generator = filter(lambda e: e.tid == self.filter_tid or e.eventid >> 24 in all_threads_classes,
+                                      events_generator)
         if self.filter_class or self.filter_subclass:
             events_generator = filter(
                 lambda e: self._is_eventid_allowed(e.eventid) or e.eventid >> 24 in extra_classes, events_generator)
@@ -68,9 +69,15 @@ class PyKdebugParser:
             if DBG_BSD in self.filter_class or any(filter(lambda sc: sc >> 8 == DBG_BSD, self.filter_subclass)):
                 extra_classes.append(DBG_FSYSTEM)
 
-        traces_parser = TracesParser(trace_codes_map, self.threads_pids, self.pids_names)
-        trace_generator = traces_parser.feed_generator(self.kevents(kdebug, extra_classes))
+        # Kernel trace records of other threads declare the threads and name the processes (a new thread is announced by
+        # its creator), so they are read whatever the thread filter is; the filter is applied to the decoded traces.
+        all_threads_classes = [DBG_TRACE] if self.filter_tid is not None else []
 
+        traces_parser = TracesParser(trace_codes_map, self.threads_pids, self.pids_names)
+        trace_generator = traces_parser.feed_generator(self.kevents(kdebug, extra_classes, all_threads_classes))
+
+        if self.filter_tid is not None:
+            trace_generator = filter(lambda t: t.ktraces[0].tid == self.filter_tid, trace_generator)
         if self.filter_process is not None:
             trace_generator = filter(self._filter_process_callback, trace_generator)
         if has_filters:
